@@ -16,12 +16,10 @@ impl InfixFilter {
                 timestamp_from_ts_infix(infix, infix_format).is_ok()
             }
             InfixFilter::Numbrs => {
-                if infix.len() > 2 {
-                    let mut chars = infix.chars();
-                    chars.next().unwrap() == 'r' && chars.next().unwrap().is_ascii_digit()
-                } else {
-                    false
-                }
+                // 'r', followed by at least five digits, and nothing else
+                infix.strip_prefix('r').is_some_and(|digits| {
+                    digits.len() >= 5 && digits.bytes().all(|b| b.is_ascii_digit())
+                })
             }
             #[cfg(test)]
             InfixFilter::StartsWth(s) => infix.starts_with(s),
